@@ -30,7 +30,7 @@ MeasOpts == {[kind |-> "none", hs |-> <<>>], [kind |-> "nodet", hs |-> <<>>]}
             \cup (IF WithVV THEN {[kind |-> "vv", hs |-> <<h>>] : h \in Lattice} ELSE {})
 RowsOf(m, o) ==
   IF o.kind = "none" THEN <<>>
-  ELSE IF o.kind = "nodet" THEN << [c |-> m[1], t |-> m[2], h |-> -1, k |-> 0] >>
+  ELSE IF o.kind = "nodet" THEN << [c |-> m[1], t |-> m[2], h |-> NaNH, k |-> 0] >>
   ELSE IF o.kind = "vv" THEN << [c |-> m[1], t |-> m[2], h |-> o.hs[1], k |-> -1] >>
   ELSE [i \in 1..Len(o.hs) |-> [c |-> m[1], t |-> m[2], h |-> o.hs[i], k |-> i]]
 MeasSeq(order) ==     \* measurements by time (ascending or descending), ceilometers within
@@ -66,7 +66,7 @@ GroupingFromClusters(d, sid, lab) ==      \* lab: labels over the valid rows
       pos(i) == CHOOSE j \in Idx(vs) : vs[j] = i
       blk(x) == {vs[j] : j \in {q \in Idx(vs) : lab[q] = x}}
       name(x) == ModeMin([q \in 1..Cardinality(blk(x)) |-> sid[SetToSeq(blk(x))[q]]])
-  IN [i \in Idx(d) |-> IF d[i].h = -1 THEN -1 ELSE name(lab[pos(i)])]
+  IN [i \in Idx(d) |-> IF d[i].h = NaNH THEN -1 ELSE name(lab[pos(i)])]
 PreMergeGroupings(d, sid) ==
   LET vs == ValidSeq(d)   nv == Len(vs) IN
   IF nv = 0 THEN {[i \in Idx(d) |-> -1]}
